@@ -53,6 +53,16 @@ func c18Addrs() [][]byte {
 		l := fill(n, byte(n))
 		out = append(out, l)
 	}
+	// an address whose tail is the length-prefixed form of another address (what a suffix match on raw keys
+	// would confuse): 11 bytes | 0x14 | the 20-byte pattern address, and 0x02 | a 2-byte address
+	{
+		a20 := make([]byte, 20)
+		for i := range a20 {
+			a20[i] = byte(0x41 + i%23)
+		}
+		out = append(out, append(append(bytes.Repeat([]byte{0x07}, 11), 0x14), a20...))
+		out = append(out, []byte{0x09, 0x02, 0x41, 0x42})
+	}
 	// de-duplicate
 	seen := map[string]bool{}
 	var u [][]byte
@@ -104,7 +114,7 @@ func c18Keys() []logicalKey {
 	// streams: all (receiver, sender) pairs over a reduced address set (every length, two contents)
 	var sa [][]byte
 	for i, a := range addrs {
-		if i%2 == 0 || len(a) <= 2 {
+		if i%2 == 0 || len(a) <= 2 || len(a) == 32 || len(a) == 4 || len(a) == 20 {
 			sa = append(sa, a)
 		}
 	}
@@ -378,7 +388,7 @@ func c18RoundTrips(bad func(kind, f string, a ...any)) int {
 	}
 	var sa [][]byte
 	for i, a := range addrs {
-		if i%2 == 0 || len(a) <= 2 {
+		if i%2 == 0 || len(a) <= 2 || len(a) == 32 || len(a) == 4 || len(a) == 20 {
 			sa = append(sa, a)
 		}
 	}
@@ -457,6 +467,14 @@ func c18RoundTrips(bad func(kind, f string, a ...any)) int {
 		n++
 		if err != nil || len(resp.Streams) != len(sa) {
 			bad("listing", "AllStreamsForSender(%x) returned %v streams (err %v), %d exist", s, len(resp.GetStreams()), err, len(sa))
+			continue
+		}
+		for _, x := range resp.Streams {
+			rAddr, _ := sdk.AccAddressFromBech32(x.Receiver)
+			sAddr, _ := sdk.AccAddressFromBech32(x.Sender)
+			if st, ok := sk.GetStream(ctx, rAddr, sdk.AccAddress(s)); !ok || st.FlowRate != x.Stream.FlowRate || !bytes.Equal(sAddr, s) {
+				bad("listing", "AllStreamsForSender(%x) reports a stream %x<-%x that was not created with this sender", s, []byte(rAddr), []byte(sAddr))
+			}
 		}
 	}
 	_ = binary.BigEndian
